@@ -802,7 +802,7 @@ fn run_batch(ctx: &Ctx, tier: Tier, corpus: &Corpus, emit_log: Option<&Path>) ->
     let n = match (property, tier) {
         ("C29", Tier::Quick) => 2500,
         ("C29", Tier::Thorough) => 40_000,
-        (_, Tier::Quick) => 3000,
+        (_, Tier::Quick) => 6000,
         (_, Tier::Thorough) => 30_000,
     };
     let n = ((n as f64) * scale()) as usize;
